@@ -65,8 +65,13 @@ def run_ops(case):
                 else:
                     # (usually the pattern object is a temporary, as in m.add(recurring(...)); its
                     # exdates argument is a mutable set the caller keeps)
+                    extra = {}
+                    if len(op) > 7 and op[7]:
+                        # the pattern arrives with a recurring_event_id of its own (it was read from
+                        # another calendar): the timeline files the series under ITS id
+                        extra["recurring_event_id"] = "preset-by-caller"
                     pobj = RecurringPattern("daily", interval=k, start=start, duration=dur, tz="UTC",
-                                            interval_class=MEv, tag=tag, exdates=set())
+                                            interval_class=MEv, tag=tag, exdates=set(), **extra)
                     pat_objs.append(pobj)
                 res = m.add(pobj)
                 gc.collect()
@@ -89,6 +94,16 @@ def run_ops(case):
                 snap = [code(r) for r in m.fetch(a, b)]
                 res = m.remove(m.fetch(a, b))
                 out.append(["fetched", snap, [r.success for r in res]])
+            elif op[0] == "rseriesmany":
+                # remove_series(iterable): one call, one WriteResult per item; modelled as the sequence
+                # of single remove_series calls
+                evs = [mk(*it) for it in op[1]]
+                res = m.remove_series(iter(evs))
+                flags = [r.success for r in res]
+                if len(flags) != len(evs):
+                    return {"err": f"remove_series(iterable of {len(evs)}) returned {len(flags)} results"}
+                for f in flags:
+                    out.append([[f], []])
             elif op[0] == "removemany":
                 # remove(iterable): one call, one WriteResult per item; modelled as the sequence of
                 # single removals (the observation is split accordingly)
@@ -124,6 +139,8 @@ def coq_op(op):
         return f"(MAddPat {cz(k * DAY)} {cz(phase)} {cz(dur)} {tag}%N)"
     if op[0] == "remove":
         return f"(MRemove {coq_ev(op[1], op[2], op[3], op[4])})"
+    if op[0] == "rseriesmany":
+        return "; ".join(f"(MRemoveSeries {coq_ev(*it)})" for it in op[1])
     if op[0] == "removemany":
         return "; ".join(f"(MRemove {coq_ev(*it)})" for it in op[1])
     if op[0] == "addmany":
@@ -140,7 +157,7 @@ def shift_ops(ops, d):
     for o in ops:
         if o[0] in ("add", "remove", "rseries"):
             out.append([o[0], sh(o[1]), sh(o[2])] + list(o[3:]))
-        elif o[0] in ("addmany", "removemany"):
+        elif o[0] in ("addmany", "removemany", "rseriesmany"):
             out.append([o[0], [[sh(it[0]), sh(it[1])] + list(it[2:]) for it in o[1]]])
         elif o[0] == "slice":
             out.append(["slice", o[1] + d, o[2] + d, o[3]])
@@ -197,12 +214,13 @@ class MemFamily(Family):
                     tod = rng.choice([0, 9 * H, 23 * H, 12 * H + 1800])
                     phase = (BASE + rng.choice([0, 1, 2]) * DAY + tod) if anchored else tod
                     dur = rng.choice([H, 2 * H, DAY, DAY + 6 * H, 60 * H])
-                    prev = [o for o in ops if o[0] == "addpat" and len(o) == 6]
+                    prev = [o for o in ops if o[0] == "addpat" and (len(o) == 6 or o[6] is None)]   # (one new object each)
                     if prev and rng.random() < 0.25:
                         src = rng.randrange(len(prev))
                         ops.append(prev[src][:6] + [src])          # the same pattern object once more
                     else:
-                        ops.append(["addpat", k, phase, dur, rng.choice([4, 5, 6]), anchored])
+                        ops.append(["addpat", k, phase, dur, rng.choice([4, 5, 6]), anchored]
+                                   + ([None, True] if rng.random() < 0.15 else []))
                     npat += 1
                 elif r < 0.6:
                     kind = rng.choice(["remove", "remove", "rseries"])
@@ -247,6 +265,20 @@ class MemFamily(Family):
                 for o in merged:
                     if o[0] == "removemany" and rng.random() < 0.5:
                         o[1].append(list(rng.choice(o[1])))
+                # ... and runs of consecutive remove_series calls into remove_series(<iterable>)
+                merged1 = []
+                for o in merged:
+                    if o[0] == "rseries" and merged1 and merged1[-1][0] == "rseriesmany" and len(merged1[-1][1]) < 4:
+                        merged1[-1][1].append(o[1:5])
+                    elif o[0] == "rseries":
+                        merged1.append(["rseriesmany", [o[1:5]]])
+                    else:
+                        merged1.append(o)
+                merged = merged1
+                for o in merged:
+                    if o[0] == "rseriesmany" and added and rng.random() < 0.6:
+                        for _ in range(rng.choice([1, 2])):
+                            o[1].append(list(rng.choice(added)))       # several one-off events in one batch
                 # ... and runs of consecutive adds into add([...])
                 merged2 = []
                 for o in merged:
@@ -284,7 +316,7 @@ class MemFamily(Family):
                     ops.append("(MSlice 0 1 false)")
                     ob.append(f"({clist([cbool(f)])}, [])")
                 continue
-            n_ = len(o[1]) if o[0] in ("removemany", "addmany") else 1
+            n_ = len(o[1]) if o[0] in ("removemany", "addmany", "rseriesmany") else 1
             if n_ == 0:
                 continue
             ops.append(coq_op(o))
@@ -299,7 +331,7 @@ class MemFamily(Family):
             if ops[i][0] == "addpat" and any(o[0] == "addpat" and len(o) > 6 for o in ops):
                 continue      # a later op refers to pattern objects by position
             if ops[i][0] == "addpat" and any((o[0] in ("remove", "rseries", "add") and len(o) > 4 and o[4])
-                                             or (o[0] in ("removemany", "addmany") and any(it[3] for it in o[1]))
+                                             or (o[0] in ("removemany", "addmany", "rseriesmany") and any(it[3] for it in o[1]))
                                              for o in ops[i + 1:]):
                 continue      # dropping a pattern would renumber the series referred to later
             yield dict(ops=ops[:i] + ops[i + 1:])
@@ -309,7 +341,7 @@ class MemFamily(Family):
 
     def nontrivial(self, case, obs):
         return (any(e[1] for e in obs if e[0] != "fetched")
-                and any(o[0] in ("remove", "rseries", "removemany", "remove_fetched") for o in case["ops"]))
+                and any(o[0] in ("remove", "rseries", "removemany", "rseriesmany", "remove_fetched") for o in case["ops"]))
 
     def distribution(self, case, dist):
         for o in case["ops"]:
